@@ -614,6 +614,11 @@ def run(chk, args):
         "(also on dead chips), <= 20 vertices incl. zero-demand ones, <= 3 resource types, nets (self loops, zero / "
         "fractional weights), consistent mixes of Location (repeated), SameChip (chained, duplicated members, "
         "singleton, empty, repeated), global and per-chip Reserve constraints (incl. dead chips), Align / RouteEndpoint "
-        "constraints, custom vertex / chip orders, SA effort in {0, 0.1, 1}, seeds; modes unit (completeness premise) / "
-        "general / tight; every case run through 11 placer runs covering the 7 configurations; non-trivial = >= 2 "
-        "vertices, >= 1 constraint, at least one placer returned a placement; distinct by hash of the whole input")
+        "constraints, custom vertex / chip orders (with non-existent chips), SA effort in {0, 0.1, 1}, seeds; modes unit "
+        "(completeness premise) / general / tight; every case goes through 12 placer runs covering the 7 configurations "
+        "(sequential default + custom orders, breadth-first, Hilbert with both vertex orders, RCM, random scripted + "
+        "real generator, SA C kernel, SA Python kernel, SA initial placement with scripted shuffles, SA Python kernel "
+        "with every _step observed and replayed by the model); thorough tier adds 8136 exhaustively enumerated small "
+        "problems (2x1 machine, capacities 0..2, <= 3 vertices with demands 0..2, same-chip pair / location / global "
+        "reservation on or off); non-trivial = >= 2 vertices, >= 1 constraint, at least one placer returned a "
+        "placement; distinct by hash of the whole input")
